@@ -1148,6 +1148,29 @@ val norm_seg : key -> str
 
 val norm_path : key list -> str
 
+type hop =
+| HNewEnv of envcfg
+| HRegister of nat * str * fdecl
+| HCompile of nat * str
+| HApply of nat * json
+| HFindEnv of nat * str * json
+| HFindModule of str * json
+
+type hstate = { envs : envcfg list; compiled : (nat * query) list }
+
+type hout =
+| HNone
+| HNodes of node list result
+| HCompiled of nat result
+
+val set_reg : envcfg -> registry -> envcfg
+
+val update_nth : nat -> ('a1 -> 'a1) -> 'a1 list -> 'a1 list
+
+val hstep : envcfg -> hstate -> hop -> hstate * hout
+
+val hrun : envcfg -> hstate -> hop list -> hstate * hout list
+
 val iota_json : z -> json list
 
 val enc_sel0 : (z * json) list -> z list
@@ -1191,5 +1214,11 @@ val dec_num : num dec
 val op_repr : z list -> z list
 
 val op_norm_path : z list -> z list
+
+val dec_hop : rxrow list -> hop dec
+
+val enc_hout : hout -> z list
+
+val op_history : z list -> z list
 
 val dispatch : z list -> z list
